@@ -522,6 +522,16 @@ func runC06(c *core.Ctx) {
 	c06SummaryLastSecond(c, summaryZones)
 	c06NaturalLanguage(c)
 	c06SubSecond(c, [][]string{{"print"}, {"csv", "log"}, {"reg"}, {"report", "quantity"}})
+	// the period of a request is the one this request names: requests served one after the other by one
+	// application value (the job server), each compared with a freshly built application
+	if pool := newPool(c, c.Procs); pool != nil {
+		reusedApp(c, pool, c.N(200, 2500), nestedLogShape)
+		jobs, deaths := pool.Stats()
+		c.Count("l2_jobs", jobs)
+		c.Count("l2_process_deaths", deaths)
+		c.Count("l2_priming_runs", pool.Primed())
+		pool.Close()
+	}
 	dir := filepath.Join(c.Work, "summary")
 	type target struct {
 		arg string
